@@ -141,6 +141,7 @@ type Sim struct {
 	chans    map[unsafe.Pointer]*chanState
 	pools    map[unsafe.Pointer]*poolState
 	onces    map[unsafe.Pointer]*onceState
+	atomics  map[unsafe.Pointer]*atomicState
 	keep     []any // keeps identities alive for the duration of the run
 	timers   []*timer
 	timerSeq int
